@@ -55,14 +55,16 @@ CHECKS = {
     "C07": ("2 (C07)", "Two real endpoints with real codec, session logic and journals (FakeSQLite files surviving the breaks) over in-memory pipes: "
                   "every fault schedule of the macro-step family (symbolic numbers of sends per side, solver-chosen delivered prefixes per "
                   "direction before each break, up to two breaks incl. one inside the recovery traffic, three recovery drain orders, "
-                  "transport error kinds through the real reader task) is explored; oracle = exactly-once in-order delivery, both ACTIVE, counters agree."),
+                  "transport error kinds through the real reader task, drain() failing at a solver-chosen frame of the recovery traffic) is explored; oracle = exactly-once in-order delivery, both ACTIVE, counters agree."),
     "C09": ("2 (C09)", "Stored == live counters after every completed inbound step from an arbitrary logged-on state (a new object's restored "
                   "counters are compared); two-endpoint histories in which an endpoint is replaced by a new connection object over its journal "
                   "at solver-chosen quiescent points (graceful or killed) and at solver-chosen crash points inside a send (every journal "
-                  "statement / commit slot, after write, after drain) and inside inbound processing, followed by reconnect + Logon."),
+                  "statement / commit slot, after write, after drain), inside inbound processing and inside the servicing of a ResendRequest "
+                  "(every journal slot of the replay), followed by reconnect + Logon."),
     "C14": ("2 (C14)", "The real send_msg / _process_message (ResendRequest servicing, gap detection) / heartbeat task coroutines driven by a "
                   "symbolic scheduler over the library's own suspension points (drain with FIFO wake-up, awaited application hooks): every "
-                  "schedule of 2-3 tasks up to a suspension-point bound, with symbolic starting counter and ResendRequest range."),
+                  "schedule of 2-3 tasks up to a suspension-point bound, with symbolic starting counter and ResendRequest range; also the "
+                  "initiator's first Logon (on_state_change suspends) racing with further sends."),
     "C08": ("2 (C08)", "Operation sequences on the real Journaler (FakeSQLite) with the crash slot as a solver variable over every point "
                   "before/after every SQL statement and commit, plus normal close; after the crash a fresh Journaler must show a state "
                   "at an operation boundary. Counterexamples and sampled witnesses are re-run on the real sqlite3 with os._exit in a child."),
